@@ -36,10 +36,17 @@ CHECKS["C22"] = dict(
             dict(spec="MCKad.tla", cfg="MCKadFnD_deep.cfg", workers=8, timeout=1200, thorough_only=True)],
     gen=dict(
         quick=[_gen("KadGenVec.cfg", "exh", "vectors-q1", dict(VERIF_UNIV="depth", VERIF_BINMAX=5, VERIF_VBINS=3, VERIF_VCLASSES="quick"), max=150),
+               # disconnections (both kinds) of a reachable / an unreachable peer of every bin, observed immediately, on every
+               # class vector with a positive depth; bins may mix reachable and unreachable peers
+               _gen("KadGenDisc.cfg", "exh", "disconnect-q1", dict(VERIF_UNIV="depth", VERIF_BINMAX=5, VERIF_VBINS=3)),
+               _gen("KadGenDisc.cfg", "exh", "disconnect-q4", dict(VERIF_UNIV="depth", VERIF_BINMAX=0, VERIF_VBINS=3), max=40),
                _gen("KadGenOrder.cfg", "sim", "walks-q1", dict(VERIF_UNIV="depth", VERIF_BINMAX=5), depth=26, num=5, max=25),
                _gen("KadGenOrder.cfg", "sim", "walks-deep-q2", dict(VERIF_UNIV="deep", VERIF_BINMAX=10), depth=30, num=3, max=15, salt=1),
                _gen("KadGenOrder.cfg", "sim", "walks-q4", dict(VERIF_UNIV="depth", VERIF_BINMAX=0), depth=40, num=3, max=15, salt=2)],
         thorough=[_gen("KadGenVec.cfg", "exh", "vectors-q1", dict(VERIF_UNIV="depth", VERIF_BINMAX=5, VERIF_VBINS=4, VERIF_VCLASSES="quick"), max=600),
+                  _gen("KadGenDisc.cfg", "exh", "disconnect-q1", dict(VERIF_UNIV="depth", VERIF_BINMAX=5, VERIF_VBINS=4), max=300),
+                  _gen("KadGenDisc.cfg", "exh", "disconnect-q4", dict(VERIF_UNIV="depth", VERIF_BINMAX=0, VERIF_VBINS=3)),
+                  _gen("KadGenDisc.cfg", "exh", "disconnect-q2", dict(VERIF_UNIV="depth", VERIF_BINMAX=10, VERIF_VBINS=3)),
                   _gen("KadGenVec.cfg", "exh", "vectors-q4", dict(VERIF_UNIV="depth", VERIF_BINMAX=0, VERIF_VBINS=3, VERIF_VCLASSES="full"), max=300),
                   _gen("KadGenVec.cfg", "exh", "vectors-q2", dict(VERIF_UNIV="depth", VERIF_BINMAX=10, VERIF_VBINS=3, VERIF_VCLASSES="full"), max=300),
                   _gen("KadGenOrder.cfg", "sim", "walks-q1", dict(VERIF_UNIV="depth", VERIF_BINMAX=5), depth=30, num=25, max=150),
@@ -51,7 +58,9 @@ CHECKS["C22"] = dict(
     corrupt=corrupt_field("connected", "st", lambda e: _st(e, depth=e["st"]["depth"] + 5)),
     nontrivial=lambda s: sum(1 for o in s["ops"] if o["op"] in ("connected", "outbound")) > 3,
     rule="TLC-generated scenarios: (a) every vector of per-bin classes <<peers, reachable>> over a class menu, built deepest-first/"
-         "outbound, promote-all-then-demote, and shallowest-first on three fresh instances; (b) -simulate walks of the event model "
+         "outbound, promote-all-then-demote, and shallowest-first on three fresh instances; (a') every class vector with a positive depth over a menu whose bins mix reachable "
+         "and unreachable peers, followed by Disconnected / DisconnectForce of one reachable and one unreachable peer of every bin, each "
+         "observed immediately and re-connected; (b) -simulate walks of the event model "
          "(connect in/out, disconnect, forced disconnect, reachability both ways, SetRadius, protect, add-peers) followed by the same "
          "three constructions of the walk's final state; thresholds via Options.BinMaxPeers 5/10/default in separate driver processes; "
          "distinct = distinct (par, operation sequence); non-trivial = more than three connections",
